@@ -238,7 +238,27 @@ def gen_phases(rng):
 
 def gen_script(rng, tier, focus):
     """focus 5: membership histories on both balancers; focus 6: aperture dynamics; focus 12: the open gate;
-    focus 3: member faults under load (C03/C04 on the aperture balancer)"""
+    focus 3: member faults under load (C03/C04 on the aperture balancer).  Every focus: a quarter of the scripts call
+    Open() again (add_reopens)"""
+    return add_reopens(_gen_script(rng, tier, focus))
+
+
+def add_reopens(script):
+    """A quarter of the scripts: Open() is called again, one to three times, anywhere after the first call — while
+    the initial list is loading, right after it, between notifications and traffic, at the very end.  The balancer
+    is opening or open then and hands back the open result it has.  Drawn from a generator of its own (derived from
+    the script's seed) and inserted last, so the rest of the script is what it was without."""
+    import random as _random
+    aux = _random.Random(script['seed'] ^ 0x0C05E)
+    if aux.random() >= 0.25:
+        return script
+    ops = script['ops']
+    for _ in range(aux.choice([1, 1, 2, 3])):
+        ops.insert(aux.randrange(1, len(ops) + 1), ['open'])
+    return script
+
+
+def _gen_script(rng, tier, focus):
     if focus == 12:
         return gen_gate(rng, tier)
     if focus == 3:
@@ -372,7 +392,7 @@ def add_clock_steps(script):
 def shrink(script):
     ops = script['ops']
     for i in range(len(ops) - 1, -1, -1):
-        if ops[i][0] in ('open', 'loaded'):
+        if ops[i][0] == 'loaded' or (ops[i][0] == 'open' and i == 0):
             continue
         cand = ops[:i] + ops[i + 1:]
         if ops[i][0] in ('get', 'getd'):
@@ -828,6 +848,7 @@ def _run_script(script, comp, wall, ema_log):
         # before it: a sweep, a shrink step and a replay behave alike
         decoy_traffic(1, 1.0)
 
+    open_results = []           # what each Open() returned
     for op in script['ops']:
         if aperture:
             in_flight = set(c.endpoint for c in prov.chans if c.opens > 0 and c.open_out is None)
@@ -858,7 +879,15 @@ def _run_script(script, comp, wall, ema_log):
                 tags.add('snap-late')
             continue
         if kind == 'open':
-            sink.Open()
+            ar = sink.Open()
+            if open_results:
+                # Open() on a balancer that is opening or open: the same open result, nothing else
+                tags.add('open-again')
+                tags.add('open-again-open' if open_results[0].ready() else
+                         ('open-again-opening' if ss.release.is_set() else 'open-again-loading'))
+                if ar is not open_results[0]:
+                    tags.add('open-returned-new-result')
+            open_results.append(ar)
             rt.drain()
             optxt = 'open'
         elif kind == 'loaded':
